@@ -1,6 +1,7 @@
 import Lean.Data.Json
 import Sismic.Model.World
 import Sismic.Model.Edit
+import Sismic.Model.IO
 /-!
 # Sismic.Json — the line protocol between the Python harness and the model driver
 (decoding of cases, encoding of observations; no logic)
@@ -244,5 +245,27 @@ def ofChartSnap (c : Chart) : Json :=
       ("source", .str t.source), ("target", ofOptStr t.target), ("event", ofOptStr t.event),
       ("guard", ofOptCode t.guard), ("action", ofOptCode t.action), ("priority", ofInt t.priority),
       ("pre", ofCodes t.pre), ("post", ofCodes t.post), ("inv", ofCodes t.inv)])).toArray)]
+
+partial def data (j : Json) : P Data :=
+  match j with
+  | .null => pure .null
+  | .bool b => pure (.bool b)
+  | .num _ => do
+    match j.getInt? with
+    | .ok i => pure (.int i)
+    | .error _ => throw "float"
+  | .str s => pure (.str s)
+  | .arr a => do return .list (← a.toList.mapM data)
+  | .obj o => do
+    let l ← o.toList.mapM (fun (p : String × Json) => do return (p.1, (← data p.2)))
+    return .map l
+
+partial def ofData : Data → Json
+  | .null => .null
+  | .bool b => .bool b
+  | .int i => ofInt i
+  | .str s => .str s
+  | .list l => .arr (l.map ofData).toArray
+  | .map m => Json.mkObj (m.map (fun p => (p.1, ofData p.2)))
 
 end Sismic.J
